@@ -830,7 +830,8 @@ fn write_evidence(d: &Driver, path: &Path, violations: i64, replays: &[Value], k
         "delaney2d::orbifold_symbol",
         "fundamental_group",
     ];
-    let probes_at_zero: Vec<&str> = if hooks_compiled() { probes_expected.iter().cloned().filter(|p| !a.probes.contains_key(*p)).collect() } else { vec![] };
+    // C16 observes simplify only; the probes outside simplify.rs belong to is_euclidean runs
+    let probes_at_zero: Vec<&str> = if hooks_compiled() { probes_expected.iter().cloned().filter(|p| (prop == "C17" || p.starts_with("simplify::")) && !a.probes.contains_key(*p)).collect() } else { vec![] };
     let table: std::collections::BTreeSet<String> = std::fs::read_to_string(format!("{}/src/data/euclideanInvariants.data", repo_path()))
         .unwrap_or_default()
         .split_whitespace()
